@@ -18,6 +18,7 @@ import (
 	"unsafe"
 
 	"github.com/NethermindEth/juno/jsonrpc"
+	rpcv10 "github.com/NethermindEth/juno/rpc/v10"
 	"github.com/NethermindEth/juno/utils/log"
 
 	"jsim/sim"
@@ -270,7 +271,16 @@ func C11(c *sim.Ctx) {
 		}
 		return "http_" + cls
 	}
-	g := &gen{t: t, sched: class == classSched, biased: class == classSched && !t.Chance("sched_unbiased", 1, 5)}
+	// a share of the runs calls the methods whose parameters are structs with validate tags
+	// (valid_types.go); the validator is attached to the server of every run, as node.go attaches it
+	validRun := t.Chance("valid_methods", 2, 5)
+	switch c.Knobs["valid"] { // experiment aid (JSIM_KNOB_valid=only|off); not set by props
+	case "only":
+		validRun = true
+	case "off":
+		validRun = false
+	}
+	g := &gen{t: t, sched: class == classSched, biased: class == classSched && !t.Chance("sched_unbiased", 1, 5), valid: validRun}
 	input, label := g.input()
 	// Only an input that names one of the methods whose result cannot be serialised can reach the
 	// server's handling of a failed serialisation. Those runs (and every run of a process in which an
@@ -378,7 +388,7 @@ func C11(c *sim.Ctx) {
 		c.Must(err, "logger")
 		logger = zl
 	}
-	srv := jsonrpc.NewServer(poolSize, logger)
+	srv := jsonrpc.NewServer(poolSize, logger).WithValidator(rpcv10.Validator())
 	rec := &recorder{park: class == classSched}
 	heldAnswer := !viaHTTP && !viaWS && !useRW && class != classSched && t.Chance("held_answer", 1, 6)
 	c.Must(register(srv, rec), "register methods")
@@ -1080,6 +1090,7 @@ func probes(c *sim.Ctx, exp *expectation, chosen []int, obs *observed) {
 	for i, e := range exp.entries {
 		a := e.alts[chosen[i]]
 		cls := e.cls
+		vProbes(c, &e, &a)
 		if a.call != nil {
 			nCall++
 			if strings.Contains(cls, ":named") {
